@@ -185,8 +185,12 @@ def main():
     # complementary jobs: inside the witness region of a recorded finding the obligations are expected to fail
     comp = [harness(info, c, extra_requires='!(%s)' % known['C03_%s_write' % c]['exclude_requires'], suffix='__finding')
             for c in classes if 'C03_%s_write' % c in known]
+    # count-level consumption clause R3 lives in the hostile-stream decode jobs (checks/c10.py); its label is C03's
+    from checks import c10
+    rjobs = c10.codec_jobs(info, only)
+    for j in rjobs: j.name = j.name.replace('C10_', 'C03_')
     rep = core.Report('C03')
-    results = core.run_jobs(jobs + comp)
+    results = core.keep_property(core.run_jobs(jobs + comp + rjobs), 'C03')
     cres = [r for r in results if r.job.name.endswith('__finding')]
     results = [r for r in results if not r.job.name.endswith('__finding')]
     rep.add_results(results)
